@@ -26,9 +26,11 @@
 (* (capacity 1), the context.  The documented contract for queries NOT     *)
 (* marked idempotent: one execution, never retried (doc.go: "Non-idempotent*)
 (* queries are not eligible for retrying nor speculative execution";       *)
-(* Query.IsIdempotent: "Non-idempotent query won't be retried").  The      *)
-(* constant NonIdemRetry = TRUE models the code as it is (it retries), and *)
-(* TLC then exhibits the violation.                                        *)
+(* Query.IsIdempotent: "Non-idempotent query won't be retried").  With the *)
+(* constant NonIdemRetry = TRUE the model ALSO admits what the code does    *)
+(* (it asks the retry policy and retries): TLC then exhibits the violation  *)
+(* (MC_Executor_defect.cfg), and trace conformance uses this setting so     *)
+(* that the known deviation is reported by the monitor only.                *)
 (*                                                                         *)
 (* Every visible action emits one event of ExecutorMon's vocabulary; the   *)
 (* property monitor runs along as ghost variable g.  Deliver and Recv (the *)
@@ -40,7 +42,7 @@ EXTENDS ExecutorMon, TLC
 CONSTANTS Configs,       \* set of scenarios explored
           KeepHist,      \* TRUE: keep the observable history (behaviour dumps)
           GateAtomic,    \* TRUE: only behaviours the gate scheduler can force (see below)
-          NonIdemRetry   \* TRUE: non-idempotent queries are retried (the code as it is)
+          NonIdemRetry   \* TRUE: non-idempotent queries MAY also be retried (the code as it is)
 
 VARIABLES cfg,        \* the scenario
           ex,         \* per execution: pc and locals of its `do` loop
@@ -185,9 +187,10 @@ Decide(e, d) ==
   /\ Emit(Ev("decide", e, 0, 0, d, r.out))
   /\ UNCHANGED <<cfg, ipos, cnt, started, spawned, launched, chan, ret, cancelled, returned>>
 
-\* environment: the caller cancels its context
+\* environment: the caller cancels its context (any time before executeQuery has returned to it,
+\* also after executeQuery has picked its result)
 Cancel ==
-  /\ cfg.cancel /\ ~cancelled /\ ret = NoRes
+  /\ cfg.cancel /\ ~cancelled /\ ~returned
   /\ cancelled' = TRUE
   /\ Emit(Ev("cancel", 0, 0, 0, "", ""))
   /\ UNCHANGED <<cfg, ex, ipos, cnt, started, spawned, launched, chan, ret, returned>>
